@@ -129,6 +129,17 @@ def run(chk):
     chk.add_tlc(r, "routes on the specification (NetAddr)")
     r = tlc.mc("NetFrameMC", timeout=600)
     chk.add_tlc(r, "fragmentation / reassembly on the specification (NetFrame)")
+    # design-level account of the open finding (NetStandoff.tla): streaming fragments + per-fragment NETWORK_ACKs admit a
+    # silent loss on >= 3 hops; the TMRh20 discipline (wait for the NETWORK_ACK of each fragment) admits no dropped frame
+    rs = tlc.run("NetStandoff", "NetStandoff_stream", timeout=300)
+    rw = tlc.mc("NetStandoff", "NetStandoff_wait", timeout=300)
+    r3 = tlc.mc("NetStandoff", "NetStandoff_stream3", timeout=300)
+    chk.add_tlc(rw, "NetStandoff, origin waits per fragment (TMRh20): no frame is ever dropped")
+    chk.add_tlc(r3, "NetStandoff, streaming origin, 2 hops: no SILENT loss (the origin's own fragment fails, write() returns False)")
+    if rs["ok"] or rs.get("violated") != "C05_NoSilentLoss":
+        raise tlc.TlcError("NetStandoff (stream mode) no longer exhibits the stand-off counterexample: the design account of "
+                           "the open C05 finding is out of date\n" + rs["stdout"][-1500:])
+    chk.extra["standoff_counterexample_from_design"] = [a.split(" line")[0] for a, _ in rs.get("cex", [])]
     chunks = build(chk)
     with ProcessPoolExecutor(16) as ex:
         traces = list(ex.map(run_chunk, chunks))
